@@ -86,3 +86,33 @@ impl State {
         self.line_indent += i32::from(!self.token_this_line);
     }
 }
+
+#[cfg(any(kani, mamba_verif))]
+impl State {
+    /// Build an arbitrary lexer state (verification harnesses only).
+    pub fn verif_new(
+        newlines: Vec<Lex>,
+        cur_indent: i32,
+        line_indent: i32,
+        token_this_line: bool,
+        pos: CaretPos,
+    ) -> State {
+        State {
+            newlines,
+            cur_indent,
+            line_indent,
+            token_this_line,
+            pos,
+        }
+    }
+
+    /// Read the private fields: (cur_indent, line_indent, token_this_line, pending newlines).
+    pub fn verif_view(&self) -> (i32, i32, bool, usize) {
+        (
+            self.cur_indent,
+            self.line_indent,
+            self.token_this_line,
+            self.newlines.len(),
+        )
+    }
+}
